@@ -53,6 +53,16 @@ def generate(rng, tier):
             o = (rng.choice("01"), "0", rng.choice("01"), "0", rng.choice("01"))
             yield (f"gensched {dsx} - {sx(list(o))} 0 {sx([[hx(s)] for s in srcs])} {sx([str(i) for i in sched])}"), \
                 "interleave"
+    # generators of one definition over *segmented* streams of the same APIDs, with reassembly on: per-generator state
+    from harness.props import c12
+    hdsx = sx(c12.header_only_def())
+    for _ in range(12 if tier == "quick" else 1500):
+        k = rng.randrange(2, 4)
+        srcs = [b"".join(c12.build_history(rng, [(rng.choice([100, 200]), rng.choice("FCLLU"), "seq")
+                                                  for _ in range(rng.randrange(1, 7))])) for _ in range(k)]
+        sched = [rng.randrange(k) for _ in range(rng.randrange(3, 25))]
+        yield (f"gensched {hdsx} - {sx(['1', '0', '1', '0', '0'])} 0 {sx([[hx(b)] for b in srcs])} "
+               f"{sx([str(i) for i in sched])}"), "interleave-segmented"
 
 
 def impl(line):
